@@ -721,7 +721,8 @@ fn runtime_program(rng: &mut Rng) -> String {
             // evaluation - a step or time budget, periodic work - is only consulted on these
             let n = rng.range(80, 1500);
             match rng.below(4) {
-                0 => format!("loop : (int -> int) = n => if n == 0 then 0 else loop (n - 1)\nloop {n}\n"),
+                // tail recursive: may run long (anything probabilistic per step needs many steps)
+                0 => format!("loop : (int -> int) = n => if n == 0 then 0 else loop (n - 1)\nloop {}\n", n * 3),
                 // not tail recursive: the pending additions nest, so keep it shallow
                 1 => format!("sum : (int -> int) = n => if n == 0 then 0 else n + sum (n - 1)\nsum {}\n", n / 3 + 40),
                 2 => format!("fact : (int -> int) = n => if n == 0 then 1 else n * fact (n - 1)\nfact {}\n", n / 8 + 5),
@@ -817,6 +818,30 @@ fn holes_program(rng: &mut Rng) -> String {
                 text.push_str(&format!("u{i} : _ = (v{i} : _) => v{i}\n"));
             }
             text.push_str(&format!("u{}\n", rng.below(n)));
+            text
+        }
+        3 | 4 if rng.chance(1, 2) => {
+            // a hole of an *outer* binder that has to be solved inside a block, against a type
+            // that mentions several of the block's own definitions, some defined through others
+            // (the solution must not refer to them once it escapes the block)
+            let k = rng.range(2, 4);
+            let mut text = String::from("f = (x : _) =>\n");
+            let mut names: Vec<String> = vec![];
+            for i in 0..k {
+                let name = format!("t{i}");
+                let body = if names.is_empty() || rng.chance(1, 3) {
+                    (*rng.pick(&["int", "bool", "type", "int -> int"])).to_owned()
+                } else {
+                    let a = names[rng.below(names.len())].clone();
+                    let b = names[rng.below(names.len())].clone();
+                    format!("{a} -> {b}")
+                };
+                text.push_str(&format!("  {name} = {body}\n"));
+                names.push(name);
+            }
+            let a = names[rng.below(names.len())].clone();
+            let b = names[names.len() - 1].clone();
+            text.push_str(&format!("  y : ({a} -> {b}) = x\n  y\nf\n"));
             text
         }
         _ => "(a : _) => (b : _) => (c : _ -> _ -> _) => c a b\n".to_owned(),
